@@ -8,7 +8,7 @@ def one(d):
     r = subprocess.run(["/verif/tools/refcheck.py", d, os.path.basename(d)], capture_output=True, text=True)
     return r.stdout.strip()
 bad = 0
-with ThreadPoolExecutor(3) as ex:
+with ThreadPoolExecutor(5) as ex:
     for out in ex.map(one, dirs):
         first = out.splitlines()[0] if out else "?"
         print(first)
